@@ -158,6 +158,9 @@ theorem kt_accessIndex (l i : Val) (h : Bool) : KeepsTree (accessIndex l i h) :=
   unfold accessIndex
   repeat (any_goals (first | split | (with_reducible exact kt_heapSlice _) | (with_reducible exact kt_heapMap _) | kt_leaf1 | kt_leaf2 | refine kt_bind ?_ (fun _ => ?_) | dsimp only))
 theorem kt_memberOf (c : Val) (name : Bytes) : KeepsTree (memberOf c name) := ⟨fun _ => Store.Grows.refl _⟩
+theorem kt_mapKeyMissing (l i : Val) : KeepsTree (mapKeyMissing l i) := by
+  unfold mapKeyMissing
+  repeat (any_goals (first | split | (with_reducible exact kt_heapMap _) | kt_leaf1 | kt_leaf2 | refine kt_bind ?_ (fun _ => ?_) | dsimp only))
 
 attribute [local irreducible] Store.newChild Store.injectHelpers Store.newRoot
 
@@ -223,7 +226,7 @@ macro "kt_ih2" ih:ident : tactic => `(tactic| first
 macro "kt_leaf3" : tactic =>
   `(tactic| with_reducible first
     | exact kt_heapSlice _ | exact kt_heapMap _ | exact kt_renderVal _ | exact kt_applyOpOut _ _
-    | exact kt_applyInfix _ _ _ | exact kt_updateIndex _ _ _ | exact kt_accessIndex _ _ _ | exact kt_memberOf _ _)
+    | exact kt_applyInfix _ _ _ | exact kt_updateIndex _ _ _ | exact kt_accessIndex _ _ _ | exact kt_memberOf _ _ | exact kt_mapKeyMissing _ _)
 
 macro "keepstree_ih" ih:ident : tactic =>
   `(tactic| repeat (any_goals (first
